@@ -30,44 +30,56 @@ inductive ATask where
 /-- `.ok b` = the analysis finishes with `is_quantum = b`; `.error ()` = it raises -/
 abbrev AOut := Except Unit Bool
 
+/-- both sub-analyses finish; the frame is quantum if either says so -/
+def both (x y : AOut) : AOut :=
+  match x, y with
+  | .ok a, .ok b => .ok (a || b)
+  | .error u, _ => .error u
+  | _, .error u => .error u
+
+/-- the sub-analysis finishes; the statement itself marks the frame when `b` -/
+def orB (x : AOut) (b : Bool) : AOut :=
+  match x with
+  | .ok a => .ok (a || b)
+  | .error u => .error u
+
+mutual
+/-- a value without closures inside -/
+def Val.fo : Val → Bool
+  | .list l => foList l
+  | .clos _ _ => false
+  | _ => true
+def foList : List Val → Bool
+  | [] => true
+  | v :: vs => v.fo && foList vs
+end
+
+/-- can `Func.call` resolve the callee: it needs a constant hint identifying the closure; that exists when the callee is
+a closure defined in scope (a variable carrying the nested function's name, or the closure expression itself); anything
+else is a dynamic call and raises -/
+def resolvable (fns : List Fn) : Expr → Bool
+  | .var x => fns.any (·.name == x)
+  | .lam _ => true
+  | _ => false
+
 def ana (fns : List Fn) : Nat → List String → ATask → AOut
   | 0, _, _ => .error ()
   | fuel + 1, stack, t =>
     match t with
     | .expr e =>
       match e with
-      | .lit _ => .ok false
+      -- literals of the source language are first-order (the wire format cannot even express a closure literal)
+      | .lit v => if v.fo then .ok false else .error ()
       | .var _ => .ok false
       | .look _ _ => .ok false
       | .prim _ args => ana fns fuel stack (.exprs args)
-      | .call fn args =>
-        match ana fns fuel stack (.exprs args) with
-        | .ok a => match ana fns fuel stack (.fn fn) with
-          | .ok b => .ok (a || b)
-          | .error u => .error u
-        | .error u => .error u
+      | .call fn args => both (ana fns fuel stack (.exprs args)) (ana fns fuel stack (.fn fn))
       | .callV f args =>
-        -- `Func.call` needs a constant hint identifying the closure; that exists when the
-        -- callee is a closure defined in scope (a variable carrying the nested function's
-        -- name, or the closure expression itself); anything else is a dynamic call and raises
-        if !(match f with
-             | .var x => fns.any (·.name == x)
-             | .lam _ => true
-             | _ => false) then .error ()
-        else
-        match ana fns fuel stack (.expr f) with
-        | .ok a => match ana fns fuel stack (.exprs args) with
-          | .ok b => .ok (a || b)
-          | .error u => .error u
-        | .error u => .error u
+        if !(resolvable fns f) then .error ()
+        else both (ana fns fuel stack (.expr f)) (ana fns fuel stack (.exprs args))
       | .lam fn => ana fns fuel stack (.fn fn)
     | .exprs [] => .ok false
-    | .exprs (e :: es) =>
-      match ana fns fuel stack (.expr e) with
-      | .ok a => match ana fns fuel stack (.exprs es) with
-        | .ok b => .ok (a || b)
-        | .error u => .error u
-      | .error u => .error u
+    | .exprs (e :: es) => both (ana fns fuel stack (.expr e)) (ana fns fuel stack (.exprs es))
     | .fn name =>
       if name ∈ stack then .ok false          -- recursion: the body is already being analysed further up
                                               -- (kirin stops at its depth limit without raising)
@@ -75,42 +87,17 @@ def ana (fns : List Fn) : Nat → List String → ATask → AOut
         | none => .error ()
         | some f => ana fns fuel (name :: stack) (.block f.body)
     | .block [] => .ok false
-    | .block (s :: ss) =>
-      match ana fns fuel stack (.stmt s) with
-      | .ok a => match ana fns fuel stack (.block ss) with
-        | .ok b => .ok (a || b)
-        | .error u => .error u
-      | .error u => .error u
+    | .block (s :: ss) => both (ana fns fuel stack (.stmt s)) (ana fns fuel stack (.block ss))
     | .stmt s =>
       match s with
       | .assign _ e => ana fns fuel stack (.expr e)
       | .exprS e => ana fns fuel stack (.expr e)
-      | .eff op args =>
-        match ana fns fuel stack (.exprs args) with
-        | .ok a => .ok (a || quantumEff op)
-        | .error u => .error u
-      | .devcall f args _ =>
-        match ana fns fuel stack (.exprs (f :: args)) with
-        | .ok a => .ok (a || quantumPlay)
-        | .error u => .error u
-      | .par body =>
-        match ana fns fuel stack (.block body) with
-        | .ok a => .ok (a || quantumPlay)
-        | .error u => .error u
+      | .eff op args => orB (ana fns fuel stack (.exprs args)) (quantumEff op)
+      | .devcall f args _ => orB (ana fns fuel stack (.exprs (f :: args))) quantumPlay
+      | .par body => orB (ana fns fuel stack (.block body)) quantumPlay
       | .ifS c t e =>
-        match ana fns fuel stack (.expr c) with
-        | .ok a => match ana fns fuel stack (.block t) with
-          | .ok b => match ana fns fuel stack (.block e) with
-            | .ok d => .ok (a || b || d)
-            | .error u => .error u
-          | .error u => .error u
-        | .error u => .error u
-      | .forS _ a b st body =>
-        match ana fns fuel stack (.exprs [a, b, st]) with
-        | .ok x => match ana fns fuel stack (.block body) with
-          | .ok y => .ok (x || y)
-          | .error u => .error u
-        | .error u => .error u
+        both (ana fns fuel stack (.expr c)) (both (ana fns fuel stack (.block t)) (ana fns fuel stack (.block e)))
+      | .forS _ a b st body => both (ana fns fuel stack (.exprs [a, b, st])) (ana fns fuel stack (.block body))
       | .assertS c => ana fns fuel stack (.expr c)
       | .ret e => ana fns fuel stack (.expr e)
 
